@@ -47,6 +47,43 @@ def diagram_histories(ctx):
                         ctx.broken.append({"kind": "correspondence-broken", "what": "correspondence DiagramRule histories = PtaModel.diagramAssert",
                                            "theorem": "Pta.C13.diagram_*", "calls": list(seq), "diagram": which, "impl": got, "model": m})
     s.finish()
+    s = Stream(ctx, "DiagramRule: the diagram file is rewritten between two applications of the same rule object (tags lost / tags gained)", exhaustive=True)
+    with Project({"d.puml": texts["ok"]}) as p:
+        path = p.path("d.puml")
+        for first, second in itertools.product(texts, repeat=2):
+            for base in (False, True):
+                for refile in (False, True):
+                    s.evaluations += 1
+                    with open(path, "w") as f:
+                        f.write(texts[first])
+                    r = DiagramRule().from_file(path)
+                    if base:
+                        r = r.with_base_module("p")
+
+                    def apply(rule):
+                        try:
+                            rule.assert_applies(g)
+                            return "PASS"
+                        except AssertionError:
+                            return "FAIL"
+                        except Exception as e:  # noqa: BLE001
+                            return "ERR:" + err_kind(e)
+
+                    apply(r)
+                    with open(path, "w") as f:
+                        f.write(texts[second])
+                    if refile:
+                        r = r.from_file(path)
+                    got = apply(r)
+                    fresh = DiagramRule().from_file(path)
+                    want = apply(fresh.with_base_module("p") if base else fresh)
+                    if second != "ok":
+                        s.nontrivial.add(digest((first, second, base, refile)))
+                    if (second != "ok" and got != "ERR:pumlParsingError") or got != want:
+                        ctx.violations.append({"kind": "property-violation",
+                                               "what": f"a DiagramRule object applied before the diagram file was rewritten gives {got}; the file as it is now demands {want}",
+                                               "first_content": texts[first], "second_content": texts[second], "with_base_module": base, "from_file_called_again": refile})
+    s.finish()
 
 
 def entry_options(ctx):
